@@ -56,7 +56,7 @@ fn kinds_equal(a: &TokenKind, b: &TokenKind) -> bool {
 
 pub struct Report {
     pub accepted: bool,
-    pub violations: Vec<(String, String)>, // (clause, detail)
+    pub violations: Vec<(String, String)>, // (clause[:shape], detail)
     pub tags: Vec<&'static str>,
     pub adj_ws: Vec<bool>, // whether whitespace separated token i and i+1
 }
@@ -123,14 +123,14 @@ pub fn analyse(src: &str, relex: bool) -> Report {
                                 && kinds_equal(&rt[1].kind, &t.kind);
                             if !ok {
                                 rep.violations.push((
-                                    "relex".into(),
+                                    format!("relex:{}->{}\u{1}{}", tag(&t.kind), rt.iter().skip(1).map(|x| tag(&x.kind)).collect::<Vec<_>>().join("+"), slice),
                                     format!("slice {:?} in context {:?}, alone {:?}", slice, t.kind,
                                             rt.iter().skip(1).map(|x| format!("{:?}", x.kind)).collect::<Vec<_>>()),
                                 ));
                             }
                         }
                         Err(_) => {
-                            rep.violations.push(("relex".into(), format!("slice {:?} ({:?}) rejected alone", slice, t.kind)));
+                            rep.violations.push((format!("relex:{}->rejected\u{1}{}", tag(&t.kind), slice), format!("slice {:?} ({:?}) rejected alone", slice, t.kind)));
                         }
                     }
                 }
@@ -165,54 +165,94 @@ pub fn check_one(src: &str, detail: bool) -> Value {
     out
 }
 
+#[derive(Default)]
+struct Acc {
+    total: u64,
+    accepted: u64,
+    rejected: u64,
+    ntokens: u64,
+    multibyte_tokens: u64,
+    viol: Vec<Value>,
+    viol_count: BTreeMap<String, u64>,
+    adj: BTreeMap<(String, String, bool), u64>,
+    max_viol: usize,
+}
+
+impl Acc {
+    fn feed(&mut self, s: &str) {
+        let r = std::panic::catch_unwind(|| analyse(s, true));
+        self.total += 1;
+        match r {
+            Ok(rep) => {
+                if rep.accepted { self.accepted += 1 } else { self.rejected += 1 }
+                self.ntokens += rep.tags.len() as u64;
+                if rep.accepted && !s.is_ascii() { self.multibyte_tokens += rep.tags.len() as u64; }
+                for w in 0..rep.tags.len().saturating_sub(1) {
+                    let ws = rep.adj_ws.get(w).copied().unwrap_or(false);
+                    *self.adj.entry((rep.tags[w].to_string(), rep.tags[w + 1].to_string(), ws)).or_insert(0) += 1;
+                }
+                for (c, d) in rep.violations {
+                    let n = self.viol_count.entry(c.clone()).or_insert(0);
+                    *n += 1;
+                    // keep the shortest few witnesses per class
+                    if *n <= 3 && self.viol.len() < self.max_viol {
+                        self.viol.push(json!({"src": s, "clause": c, "detail": d}));
+                    }
+                }
+            }
+            Err(_) => {
+                *self.viol_count.entry("panic".into()).or_insert(0) += 1;
+                if self.viol.len() < self.max_viol {
+                    self.viol.push(json!({"src": s, "clause": "panic", "detail": ""}));
+                }
+            }
+        }
+    }
+    fn out(self, space: u64) -> Value {
+        json!({
+            "total": self.total, "accepted": self.accepted, "rejected": self.rejected, "tokens": self.ntokens,
+            "multibyte_tokens": self.multibyte_tokens,
+            "space": space,
+            "viol_count": self.viol_count,
+            "violations": self.viol,
+            "adjacency": self.adj.iter().map(|((a, b, w), n)| json!([a, b, w, n])).collect::<Vec<_>>(),
+        })
+    }
+}
+
+/// Check a batch of given strings.
+pub fn batch(req: &Value) -> Value {
+    let mut acc = Acc { max_viol: req.get("max_viol").and_then(|v| v.as_u64()).unwrap_or(200) as usize, ..Default::default() };
+    let mut n = 0u64;
+    if let Some(a) = req.get("srcs").and_then(|v| v.as_array()) {
+        for s in a {
+            if let Some(s) = s.as_str() {
+                acc.feed(s);
+                n += 1;
+            }
+        }
+    }
+    acc.out(n)
+}
+
 /// Enumerate all strings of length 0..=max_len over `alphabet`; shard by index.
 pub fn enumerate(req: &Value) -> Value {
     let alphabet: Vec<char> = req.get("alphabet").and_then(|v| v.as_str()).unwrap_or("").chars().collect();
     let max_len = req.get("max_len").and_then(|v| v.as_u64()).unwrap_or(3) as usize;
+    let min_len = req.get("min_len").and_then(|v| v.as_u64()).unwrap_or(0) as usize;
     let shard = req.get("shard").and_then(|v| v.as_u64()).unwrap_or(0);
     let nshards = req.get("nshards").and_then(|v| v.as_u64()).unwrap_or(1).max(1);
-    let max_viol = req.get("max_viol").and_then(|v| v.as_u64()).unwrap_or(200) as usize;
+    let mut acc = Acc { max_viol: req.get("max_viol").and_then(|v| v.as_u64()).unwrap_or(200) as usize, ..Default::default() };
     let k = alphabet.len();
-    let mut total = 0u64;
-    let mut accepted = 0u64;
-    let mut rejected = 0u64;
-    let mut ntokens = 0u64;
-    let mut viol: Vec<Value> = vec![];
-    let mut viol_count: BTreeMap<String, u64> = BTreeMap::new();
-    let mut adj: BTreeMap<(String, String, bool), u64> = BTreeMap::new();
     let mut index = 0u64;
-    for len in 0..=max_len {
+    for len in min_len..=max_len {
         let mut digits = vec![0usize; len];
         loop {
             if index % nshards == shard {
                 let s: String = digits.iter().map(|&d| alphabet[d]).collect();
-                let r = std::panic::catch_unwind(|| analyse(&s, true));
-                total += 1;
-                match r {
-                    Ok(rep) => {
-                        if rep.accepted { accepted += 1 } else { rejected += 1 }
-                        ntokens += rep.tags.len() as u64;
-                        for w in 0..rep.tags.len().saturating_sub(1) {
-                            let ws = rep.adj_ws.get(w).copied().unwrap_or(false);
-                            *adj.entry((rep.tags[w].to_string(), rep.tags[w + 1].to_string(), ws)).or_insert(0) += 1;
-                        }
-                        for (c, d) in rep.violations {
-                            *viol_count.entry(c.clone()).or_insert(0) += 1;
-                            if viol.len() < max_viol {
-                                viol.push(json!({"src": s, "clause": c, "detail": d}));
-                            }
-                        }
-                    }
-                    Err(_) => {
-                        *viol_count.entry("panic".into()).or_insert(0) += 1;
-                        if viol.len() < max_viol {
-                            viol.push(json!({"src": s, "clause": "panic", "detail": ""}));
-                        }
-                    }
-                }
+                acc.feed(&s);
             }
             index += 1;
-            // increment (odometer)
             let mut done = len == 0;
             let mut p = len;
             while p > 0 {
@@ -225,11 +265,5 @@ pub fn enumerate(req: &Value) -> Value {
             if done { break; }
         }
     }
-    json!({
-        "total": total, "accepted": accepted, "rejected": rejected, "tokens": ntokens,
-        "space": index,
-        "viol_count": viol_count,
-        "violations": viol,
-        "adjacency": adj.iter().map(|((a, b, w), n)| json!([a, b, w, n])).collect::<Vec<_>>(),
-    })
+    acc.out(index)
 }
